@@ -217,10 +217,17 @@ def scenarios(quick):
 
 
 def run(ctx):
-    bound = 2 if ctx.quick else 3
-    jobs = [(s, bound, 1500 if ctx.quick else 40000) for s in scenarios(ctx.quick)]
+    kinds = list(WRITER_EVENTS)
+    if ctx.quick:
+        jobs = [(s, 2, 1500) for s in scenarios(True)]
+    else:
+        # two writers with one transaction each: bound 3; two transactions each or three writers: bound 2
+        jobs = [([(a, 1), (b, 1)], 3, 4000) for a, b in itertools.combinations_with_replacement(kinds, 2)]
+        jobs += [([(a, 2), (b, 2)], 2, 4000) for a, b in itertools.combinations(kinds, 2)]
+        jobs += [([(a, 1), (b, 1), (c, 1)], 2, 4000) for a, b, c in itertools.combinations(kinds, 3)]
+        jobs += [([('metric', 2), ('alert', 2)], 3, 4000), ([('rt', 2), ('descr', 1)], 3, 4000), ([('context', 2), ('metric', 1)], 3, 4000)]
     ctx.note('writer_scenarios', len(jobs))
-    ctx.note('writer_preemption_bound', bound)
+    ctx.note('writer_preemption_bounds', sorted({j[1] for j in jobs}))
     sched.run_partitioned(ctx, _explore, ctx.rotate(jobs), _key, group=8)
 
 
